@@ -277,8 +277,8 @@ class Driver:
 
 PLUGIN_MODEL_CFGS = ["only-table", "only-footnotes", "only-task_lists", "only-def_list", "only-abbr", "only-strikethrough", "only-mark", "only-insert", "only-superscript",
                      "only-subscript", "only-url", "only-math", "only-ruby", "only-spoiler", "only-speedup", "preset", "all", "all-speedup", "all-noescape-hardwrap",
-                     # both directive syntaxes with every plugin (all-fenced-colon is not tied yet: the list-item break rule for custom fence markers is not transcribed)
-                     "all-rst", "all-fenced"]
+                     # both directive syntaxes (and the custom fence marker) with every plugin
+                     "all-rst", "all-fenced", "all-fenced-colon"]
 
 
 def plugin_model_tie(ctx, n_each, cfgs=None, extra_docs=None):
@@ -292,7 +292,7 @@ def plugin_model_tie(ctx, n_each, cfgs=None, extra_docs=None):
         # every run: the shipped preset and the all-plugins pair, plus a seeded half of the single-plugin configurations
         rest = [n for n in names if n not in ("preset", "all", "all-speedup")]
         ctx.rng.shuffle(rest)
-        names = ["preset", "all", "all-speedup", "all-rst", "all-fenced"] + [n for n in rest if n not in ("all-rst", "all-fenced")][:8]
+        names = ["preset", "all", "all-speedup", "all-rst", "all-fenced", "all-fenced-colon"] + [n for n in rest if not n.startswith(("all-rst", "all-fenced"))][:8]
     for name in names:
         side = corr_model.Side(name)
         docs = corr_model.inputs("doc", ctx.rng, n_each, 500, side.plugins, directives=getattr(side, "directives", None))
